@@ -581,21 +581,22 @@ def subimage(check, prog):
     ok2 = False
     detail = ''
     if ok:
-        comp = ex[1]
-        if comp[0] == 'call' and comp[1] == 'list' and len(comp[2]) == 1:
-            comp = comp[2][0]
-        ok2 = comp[0] == 'comp' and len(comp[3]) == 1 and comp[2][0] == 'call' and \
-            comp[2][1] == 'slice' and len(comp[2][2]) == 2
+        from .common import list_builder
+        built = list_builder(ex[1])
+        ok2 = built is not None and built[0][0] == 'call' and \
+            built[0][1] == 'slice' and len(built[0][2]) == 2
         if ok2:
-            z = comp[3][0][1]
-            lid = comp[3][0][0][2] if comp[3][0][0][0] == 'elem' else None
+            elt_, z, lid = built
+            if lid is None:
+                ids_ = {x[2] for x in subterms(elt_) if x[0] == 'elem'}
+                lid = sorted(ids_, key=str)[0] if ids_ else None
             cterm = intern(('call', ('attr', ('call', 'numpy.round', (cen_,), ()),
                                      'astype'), (('extref', 'int'),), ()))
             okz = z[0] == 'call' and z[1] == 'zip' and len(z[2]) == 2 and \
                 z[2][0] == cterm and any(x == shp_ for x in subterms(z[2][1]))
             c_i = intern(('elem', z[2][0], lid)) if okz else None
             s_i = intern(('elem', z[2][1], lid)) if okz else None
-            lo, hi = comp[2][2]
+            lo, hi = elt_[2]
 
             def rounded_int(t):
                 if t[0] == 'call' and t[1] == 'int' and len(t[2]) == 1 and \
@@ -754,37 +755,121 @@ def bg_correct_guards(check, prog):
         MD + 'get_spacing'])
     res = it.analyze(q)
     ok = bool(res.raises) and all('BadImage' in show(o.value) for o in res.raises)
+    atoms = None
     if ok:
-        # each refusal is the failure of one conjunction of equalities (earlier
-        # ones having held); together they compare shape and spacing of all three
-        # images, and beyond those only the names of the axes
-        failing = []
+        # the refusals, taken together, say: refused <=> one of the agreement
+        # tests fails -- decided as a truth table over those tests, however the
+        # conditions are spelled (not (A and B), not A or not B, several
+        # statements, a loop over the non-pixel axes).  Agreement tests: equality
+        # of the shapes, equality or closeness *without an absolute tolerance* of
+        # the pixel sizes (a crop's pixel size is a difference of coordinates:
+        # exact equality refuses crops taken at different positions, an absolute
+        # tolerance makes the refusal depend on the unit of length), equality of
+        # the axis names, equality of the label sets of an axis other than x, y, z
+        import itertools
+        from hpstatic.logic import eval3
+        atoms = []
         for o in res.raises:
-            cs = norm_cond(o.cond)
-            ok = ok and bool(cs) and cs[-1][1] is False and all(
-                p is True for _, p in cs[:-1])
-            failing += [c for c, _ in cs]
-        tests = set(failing)
-        eqs, neg = [], []
-        for t in tests:
-            eqs += [x for x in subterms(t) if x[0] == 'cmp' and x[1] == '==']
-            neg += [x for x in subterms(t) if x[0] == 'un' and x[1] == 'not'] + \
-                [x for x in subterms(t) if x[0] == 'bool' and x[1] == 'or'] + \
-                [x for x in subterms(t) if x[0] == 'cmp' and x[1] == '!=']
-        eqs = list(dict.fromkeys(eqs))
-        shapes = [x for x in eqs if any(y[0] == 'attr' and y[2] == 'shape'
-                                        for y in (x[2], x[3]))]
-        spac = [x for x in eqs if calls_in(x, MD + 'get_spacing')]
-        axes = [x for x in eqs if all(
-            y[0] == 'call' and y[1] == 'set' and len(y[2]) == 1 and
-            y[2][0][0] == 'attr' and y[2][0][2] == 'dims' for y in (x[2], x[3]))]
-        ok = ok and len(shapes) == 2 and len(spac) == 2 and not neg and \
-            len(eqs) == 4 + len(axes)
+            for t, _ in o.cond:
+                for x in subterms(t):
+                    if x[0] == 'cmp' and x[1] in ('==', '!='):
+                        atoms.append(x)
+                    elif x[0] == 'call' and x[1] in ('numpy.allclose', 'numpy.isclose',
+                                                     'numpy.array_equal'):
+                        atoms.append(x)
+        atoms = list(dict.fromkeys(atoms))
+
+        def is_shape(x):
+            return x[0] == 'cmp' and any(y[0] == 'attr' and y[2] == 'shape'
+                                         for y in (x[2], x[3]))
+
+        def is_spacing(x):
+            return bool(calls_in(x, MD + 'get_spacing'))
+
+        def is_axes(x):
+            return x[0] == 'cmp' and all(
+                y[0] == 'call' and y[1] == 'set' and len(y[2]) == 1 and
+                y[2][0][0] == 'attr' and y[2][0][2] == 'dims' for y in (x[2], x[3]))
+
+        def is_labels(x):
+            return x[0] == 'cmp' and all(
+                y[0] == 'call' and y[1] == 'set' and len(y[2]) == 1 and
+                y[2][0][0] == 'attr' and y[2][0][2] in ('values', 'data') and
+                y[2][0][1][0] == 'idx' for y in (x[2], x[3]))
+        shapes = [x for x in atoms if is_shape(x)]
+        spac = [x for x in atoms if is_spacing(x)]
+        other = [x for x in atoms if not (is_shape(x) or is_spacing(x) or is_axes(x)
+                                          or is_labels(x))]
+        # an absolute tolerance on a length makes the verdict unit dependent
+        tol_ok = all(x[0] == 'cmp' or (x[1] != 'numpy.array_equal' and
+                                       dict(x[3]).get('atol') in (num(0), ('num', 0)))
+                     or x[1] == 'numpy.array_equal' for x in spac)
+        ok = len(shapes) == 2 and len(spac) == 2 and not other and tol_ok and \
+            len(atoms) <= 10
+        if not tol_ok:
+            detail_tol = 'the pixel sizes are compared with an absolute tolerance'
+        for vals in itertools.product((True, False), repeat=len(atoms)) if ok else ():
+            env = dict(zip(atoms, vals))
+
+            def holds(t, env=env):
+                return env[t] if (t[0] == 'call' or t[1] == '==') else not env[t]
+
+            def atom(t, env=env):
+                if t in env:
+                    return env[t]
+                if t[0] == 'cmp' and t[1] in ('in', 'not in') and \
+                        t[2][0] == 'elem' and t[3][0] in ('tuple', 'list'):
+                    # "this axis is not a pixel axis": the label test below it
+                    # speaks about such an axis
+                    return t[1] == 'not in'
+                return None
+            refused = False
+            for o in res.raises:
+                cs_ = [(t, p) for t, p in o.cond if t[0] != 'loop-iter']
+                vs = [eval3(t, atom) for t, p in cs_]
+                if all(v is not None for v in vs) and all(
+                        v == p for v, (t, p) in zip(vs, cs_)):
+                    refused = True
+            agree_all = all(holds(t) for t in atoms)
+            if refused == agree_all:
+                ok = False
+                break
+    if atoms is not None:
+        exact = [x for x in spac if x[0] == 'cmp']
+        check.require(not exact, 'T3-bg-correct-crops-accepted', 'bg_correct pixel sizes',
+                      'the pixel sizes are compared up to rounding (a relative '
+                      'tolerance, no absolute one)', loc,
+                      fail_detail='the pixel sizes are compared with %s: get_spacing is '
+                      'a difference of coordinates, 0.1, 0.10000000000000009 or '
+                      '0.10000000000000053 depending on where a crop starts, so a raw '
+                      'image and a background cropped at different positions (same '
+                      'shape, same pixel size) are refused -- 96 of 117 crop positions '
+                      'of a 100 x 100 image at spacing 0.1' % (
+                          show(exact[0])[:80] if exact else ''))
+        labels = [x for x in atoms if is_labels(x)]
+        check.require(bool(labels), 'T3-bg-correct-channels-by-label',
+                      'bg_correct channel labels',
+                      'images whose channel labels differ are refused (labelled '
+                      'arithmetic keeps only the labels they share)', loc,
+                      fail_detail='no refusal compares the labels of the non-pixel '
+                      'axes: raw with channels [red, green] and a background with '
+                      '[red, blue] give a result with the single channel red, labels '
+                      '[0, 1] an empty image, silently')
     check.require(ok, 'T3-bg-correct', 'bg_correct refusal',
-                  'BadImage iff the three images do not all share shape and spacing',
+                  'BadImage iff the three images do not all share shape, pixel size '
+                  '(compared without an absolute tolerance) and, beyond those, axis '
+                  'names and channel labels',
                   loc, fail_detail='raises under %s' % [
                       [(show(t)[:100], p) for t, p in o.cond] for o in res.raises])
     v = res.ret
+    # if a: (if b: X) is if a and b: X
+    while v[0] == 'ite' and v[2][0] == 'ite' and v[2][3] == v[3]:
+        inner = v[2]
+        outer_c = v[1][2] if v[1][0] == 'bool' and v[1][1] == 'and' else (v[1],)
+        inner_c = inner[1][2] if inner[1][0] == 'bool' and inner[1][1] == 'and' \
+            else (inner[1],)
+        v = intern(('ite', ('bool', 'and', tuple(outer_c) + tuple(inner_c)),
+                    inner[2], v[3]))
     ok = v[0] == 'ite' and v[1][0] == 'bool' and v[1][1] == 'and'
     if ok:
         # (attributes are the same through a view of the background)
